@@ -184,7 +184,10 @@ def gen_match_cases(tier, rnd):
 
 
 def gen_equal_cases(tier, rnd):
-    cases = []
+    cases = list(G.gen_hole_pairs())
+    for _ in range(400 if tier == "quick" else 20000):
+        r1, r2, _n, _m, _v = G.hole_pair(rnd)
+        cases.append((r1, r2) if rnd.random() < 0.5 else (r2, r1))
     for _ in range(3000 if tier == "quick" else 200000):
         items = G.gen_items(rnd)
         a = subst(G.render(rnd, items))
